@@ -166,7 +166,8 @@ func (w *vWorld) memAccess(addr, width uint64) (uint64, bool) {
 	inRegion := d < 1<<34
 	ok := verifrt.And(inRegion, d+width <= uint64(len(w.mem)))
 	verifrt.Assert(ok, "compiled code dereferences only addresses inside the current linear memory [0,size) (or its own contexts)")
-	return d, ok
+	// in bounds implies d < 2^32: use the 32-bit form of the offset, the shape the interpreter's address has
+	return uint64(uint32(d)), ok
 }
 
 func (w *vWorld) load(addr, width uint64) uint64 {
@@ -411,6 +412,30 @@ func (w *vWorld) call(idx int, args []vVal) (res []vVal, outcome int) {
 					return nil, vOutTrap
 				}
 				var r uint64
+				if n == 32 {
+					// computed at the operand width (a 64-bit division of extended operands is needlessly hard for the solver)
+					a32, c32 := uint32(a), uint32(c)
+					switch op {
+					case ssa.OpcodeUdiv:
+						r = uint64(a32 / c32)
+					case ssa.OpcodeUrem:
+						r = uint64(a32 % c32)
+					case ssa.OpcodeSdiv:
+						if int32(c32) == -1 && a32 == 1<<31 {
+							w.exitCode = wazevoapi.ExitCodeIntegerOverflow
+							return nil, vOutTrap
+						}
+						r = uint64(uint32(int32(a32) / int32(c32)))
+					case ssa.OpcodeSrem:
+						if int32(c32) == -1 {
+							r = 0
+						} else {
+							r = uint64(uint32(int32(a32) % int32(c32)))
+						}
+					}
+					set(vVal{lo: r})
+					continue
+				}
 				switch op {
 				case ssa.OpcodeUdiv:
 					r = a / c
